@@ -96,10 +96,10 @@ Section XmlDeser.
   Definition leaf_from_element (k : lkind) (nillable : bool) (txt : option text) : res unit :=
     match k with
     | LText =>
-        (* unicode_from_element: s = element.text or ''; from_unicode(cls, s) *)
-        if soft && negb (vstring k nillable txt) then raise_nth 0 xml_unicode_from_element_raises
-        else let s := match txt with Some s => s | None => [] end in
-             if soft && negb (vnative k nillable (Some (VText s))) then raise_nth 1 xml_unicode_from_element_raises
+        (* unicode_from_element: s = element.text or ''; validate_string(cls, s); from_unicode(cls, s) *)
+        let s := match txt with Some s => s | None => [] end in
+        if soft && negb (vstring k nillable (Some s)) then raise_nth 0 xml_unicode_from_element_raises
+        else if soft && negb (vnative k nillable (Some (VText s))) then raise_nth 1 xml_unicode_from_element_raises
              else Ret tt
     | LEnum vals =>
         if soft && negb (vstring k nillable txt) then raise_nth 0 xml_enum_from_element_raises
@@ -179,12 +179,14 @@ Section XmlDeser.
   Definition node_nsmap (n : xnode) : list (option text * text) :=
     match n with XE _ m _ _ _ => m | XO _ _ => [] end.
 
-  (** issubclass(newclass, cls.__orig__ or cls) within the universe: the same class, the
-      registered base of a customised primitive, or Date for DateTime *)
-  Definition kind_sub (k' k : lkind) : bool :=
+  (** _get_xsi_target(cls, newclass): the tag must name the declared class itself (whatever its
+      customisation; Array classes all originate from Array and are told apart by namespace and
+      type name, which [aid] stands for) or, for complex types, a subclass - of which the
+      universe has none *)
+  Definition kind_same (k' k : lkind) : bool :=
     match k', k with
     | LInt _, LInt _ | LText, LText | LBool, LBool | LDateTime, LDateTime | LDate, LDate
-    | LTime, LTime | LDur, LDur | LBytes, LBytes | LDate, LDateTime => true
+    | LTime, LTime | LDur, LDur | LBytes, LBytes => true
     | LEnum a, LEnum b => (fix eq (x y : list text) : bool :=
                              match x, y with
                              | [], [] => true
@@ -193,13 +195,13 @@ Section XmlDeser.
                              end) a b
     | _, _ => false
     end.
-  Definition ty_sub (t' t : ty) : bool :=
+  Definition xsi_target (t' t : ty) : res unit :=
     match t', t with
-    | TLeaf k', TLeaf k => kind_sub k' k
-    | TRef c', TRef c => Nat.eqb c' c
-    | TArr a' _, TArr a _ => Nat.eqb a' a
-    | TAttr k', TAttr k => kind_sub k' k && kind_sub k k'
-    | _, _ => false
+    | TLeaf k', TLeaf k => if kind_same k' k then Ret tt else raise_nth 1 xml_get_xsi_target_raises
+    | TAttr k', TAttr k => if kind_same k' k then Ret tt else raise_nth 1 xml_get_xsi_target_raises
+    | TRef c', TRef c => if Nat.eqb c' c then Ret tt else raise_nth 1 xml_get_xsi_target_raises
+    | TArr a' _, TArr a _ => if Nat.eqb a' a then Ret tt else raise_nth 0 xml_get_xsi_target_raises
+    | _, _ => raise_nth 1 xml_get_xsi_target_raises
     end.
 
   (** the head of from_element: xsi:nil, then xsi:type; returns None when the element is nil,
@@ -220,9 +222,10 @@ Section XmlDeser.
           | Some ns =>
               match assoc (qname ns objtype) (a_registry A) with
               | None => guard_raise g_xml_xsi_type_unknown true (Raise EKeyError []) (Ret None)
-              | Some None => raise_nth 3 xml_from_element_raises
-              | Some (Some (t', nil')) =>
-                  if ty_sub t' t then Ret (Some (t', nil')) else raise_nth 3 xml_from_element_raises
+              | Some None => raise_nth 1 xml_get_xsi_target_raises
+              | Some (Some (t', _)) =>
+                  (* the declared class is kept: xsi:type only confirms it *)
+                  let! _ := xsi_target t' t in Ret (Some (t, nillable))
               end
           end
       end.
@@ -251,7 +254,9 @@ Section XmlDeser.
           if soft && negb (nil' || match v with Some _ => true | None => false end)
           then raise_nth 1 xml_base_from_element_raises else Ret tt
     | Some (TArr _ elt, _) =>
-        (* array_from_element: every child node, whatever its tag *)
+        (* array_from_element: every child node, whatever its tag; under soft validation the
+           number of items is then held against the occurrence bounds of the item type, which are
+           (0, unbounded) for every Array of the universe *)
         match n with
         | XO _ _ => Ret tt
         | XE _ _ _ _ kids =>
